@@ -2,6 +2,7 @@ package collector
 
 import (
 	"fmt"
+	"sort"
 	"testing"
 
 	"github.com/honeycombio/refinery/verifharness/vkit"
@@ -88,6 +89,140 @@ func genLifecycleCase(t *rapid.T) colCase {
 	return c
 }
 
+// genC01Case: the lifecycle generator, sometimes with a tiny kept-decision capacity so that the
+// recency order of the kept LRU matters (evictions, resize on reload).
+func genC01Case(t *rapid.T) colCase {
+	switch rapid.IntRange(0, 5).Draw(t, "profile") {
+	case 0, 1:
+		return genC01PressureCase(t)
+	case 2:
+		c := genLifecycleCase(t)
+		c.Cfg.KeptSize = uint(rapid.IntRange(1, 3).Draw(t, "keptperworker") * c.Cfg.Workers)
+		return c
+	}
+	return genLifecycleCase(t)
+}
+
+// genC01PressureCase: the same operations with weights that put the kept-decision LRU under
+// pressure: tiny capacity, a sampler whose decision depends on which spans have arrived (so a
+// forgotten decision shows as a different second decision), many quickly decided kept traces,
+// reloads (which resize the decision cache) and late spans that do not carry the keep field.
+func genC01PressureCase(t *rapid.T) colCase {
+	cfg := cfgSpec{
+		Workers:      rapid.SampledFrom([]int{1, 1, 2}).Draw(t, "workers"),
+		SendDelay:    50,
+		TraceTimeout: rapid.SampledFrom([]int64{200, 500}).Draw(t, "tracetimeout"),
+		SendTicker:   rapid.SampledFrom([]int64{20, 50}).Draw(t, "ticker"),
+		AddReason:    true,
+		Sampler:      samplerSpec{Kind: "rulesfield", Rate: 1},
+	}
+	cfg.KeptSize = uint(rapid.IntRange(2, 4).Draw(t, "keptperworker") * cfg.Workers)
+	c := colCase{Cfg: cfg}
+	opGen := rapid.Custom(func(t *rapid.T) opSpec {
+		switch k := rapid.IntRange(0, 19).Draw(t, "opkind"); {
+		case k <= 7: // a root carrying the keep field: decided SendDelay later, kept
+			return opSpec{Op: "span", Trace: rapid.IntRange(1, nTraces).Draw(t, "trace"), Kind: "root", Keep: true, Via: "incoming", Settle: rapid.IntRange(0, 3).Draw(t, "settle") > 0}
+		case k <= 12: // a late span without the keep field
+			return opSpec{Op: "span", Trace: rapid.IntRange(1, nTraces).Draw(t, "trace"), Kind: "child", Via: "incoming", Late: true}
+		case k <= 16:
+			return opSpec{Op: "advance", Aim: fmt.Sprintf("deadline:%d", rapid.IntRange(1, nTraces).Draw(t, "aimtrace")), D: 100}
+		default:
+			s := samplerSpec{Kind: "rulesfield", Rate: 1}
+			return opSpec{Op: "reload", Reload: &reloadSpec{Sampler: &s}}
+		}
+	})
+	c.Ops = rapid.SliceOfN(opGen, 6, 40).Draw(t, "ops")
+	return c
+}
+
+// keptLRUDontCare replays the documented behaviour of the per-worker kept-decision LRU (capacity
+// KeptSize/workers, recency bumped by a kept decision and by every late-span lookup that finds it,
+// order preserved by the resize a reload performs) over the observed history and returns the traces
+// whose decision had legitimately aged out when a further span arrived: the statement's premise
+// ("the decision is still remembered") does not hold for them, so they are not judged.
+func keptLRUDontCare(c colCase, obs colObs, views map[string]*traceView) (dontCare map[string]bool, evictions int) {
+	dontCare = map[string]bool{}
+	if c.Cfg.KeptSize == 0 || c.Cfg.Workers == 0 {
+		return
+	}
+	capPerWorker := (int(c.Cfg.KeptSize) + c.Cfg.Workers - 1) / c.Cfg.Workers
+	type ev struct {
+		op, sub, seq int
+		trace        string
+		decision     bool
+	}
+	var evs []ev
+	for _, id := range sortedTraceIDs(views) {
+		v := views[id]
+		for _, a := range v.Accepted {
+			evs = append(evs, ev{op: a.OpIndex, sub: 1, trace: id})
+		}
+		seen := map[int]bool{}
+		for _, f := range v.Forwarded {
+			if r, _ := f.Fields["meta.refinery.send_reason"].(string); r == "trace_send_late_span" {
+				continue
+			}
+			if !seen[f.OpIndex] { // one kept decision per (trace, op)
+				seen[f.OpIndex] = true
+				evs = append(evs, ev{op: f.OpIndex, sub: 0, seq: f.Seq, trace: id, decision: true})
+			}
+		}
+	}
+	sort.Slice(evs, func(i, j int) bool {
+		if evs[i].op != evs[j].op {
+			return evs[i].op < evs[j].op
+		}
+		if evs[i].sub != evs[j].sub {
+			return evs[i].sub < evs[j].sub
+		}
+		return evs[i].seq < evs[j].seq
+	})
+	lru := map[int][]string{} // per worker, most recent first
+	state := map[string]int{} // 0 unseen, 1 buffered, 2 decided kept
+	touch := func(w int, id string) {
+		l := lru[w]
+		for i, x := range l {
+			if x == id {
+				l = append(l[:i], l[i+1:]...)
+				break
+			}
+		}
+		l = append([]string{id}, l...)
+		if len(l) > capPerWorker {
+			l = l[:capPerWorker]
+			evictions++
+		}
+		lru[w] = l
+	}
+	for _, e := range evs {
+		w := obs.WorkerOf[e.trace]
+		if e.decision {
+			touch(w, e.trace)
+			state[e.trace] = 2
+			continue
+		}
+		switch state[e.trace] {
+		case 0:
+			state[e.trace] = 1
+		case 2:
+			found := false
+			for _, x := range lru[w] {
+				if x == e.trace {
+					found = true
+				}
+			}
+			if found {
+				touch(w, e.trace)
+			} else {
+				// aged out: refinery starts a new trace with an independent decision
+				dontCare[e.trace] = true
+				state[e.trace] = 1
+			}
+		}
+	}
+	return
+}
+
 // lifecycleClasses labels a case and decides the C01/C02 non-triviality inputs.
 type lifecycleFacts struct {
 	lateSpans       int // spans accepted after their trace's first forward / after the trace was decided
@@ -143,9 +278,16 @@ func judgeC01(c colCase, obs colObs) (res vkit.Result, facts lifecycleFacts) {
 	}
 	views := viewByTrace(c, obs)
 	facts = lifecycleFactsOf(c, obs, views)
+	agedOut, evictions := keptLRUDontCare(c, obs, views)
+	if evictions > 0 {
+		res.Class("kept-lru-eviction")
+	}
+	if len(agedOut) > 0 {
+		res.Class("decision-aged-out(not judged)")
+	}
 	for _, id := range sortedTraceIDs(views) {
 		v := views[id]
-		if len(v.Forwarded) == 0 {
+		if len(v.Forwarded) == 0 || agedOut[id] {
 			continue
 		}
 		fw := map[string]int{}
@@ -228,7 +370,7 @@ func TestC01(t *testing.T) {
 			"an apparent violation is re-executed with re-salted trace ids and only reported if it persists (dropped-filter false positives are excluded by the statement)",
 			"virtual time of testing/synctest stands in for real time",
 		},
-		Gen:  genLifecycleCase,
+		Gen:  genC01Case,
 		Exec: execC01,
 	})
 }
